@@ -41,6 +41,10 @@ def _ops(fam):
         st.tuples(st.just("rewatch"), st.integers(0, 5)),
         # class-level assignment through a subclass that inherits the parameter
         st.tuples(st.just("subset"), st.integers(0, 2), _val),
+        # the very object assigned by an earlier operation is assigned again (to any target / parameter) ...
+        st.tuples(st.just("reuse"), st.integers(0, 2), st.integers(0, 2), st.integers(0, 9)),
+        # ... possibly after it was mutated in place (lists get 2 appended, dicts a key 'j': 2)
+        st.tuples(st.just("mutate"), st.integers(0, 9)),
     )
 
 
@@ -83,6 +87,13 @@ def _case(draw):
         ops[at] = ("unwatch_exact", k)
         ops.insert(draw(st.integers(at + 1, len(ops))), ("set", 2, n0, draw(val_strategy(fam)), "attr"))
         ops.insert(draw(st.integers(at + 1, len(ops))), ("subset", n0, draw(val_strategy(fam))))
+    if fam in (2, 3) and draw(st.integers(0, 3)) == 0:
+        # aliasing motif: two holders share one container L; another container N (one in-place edit away from L) is given
+        # to the first, edited in place until it equals L, then given to the second
+        n_ = draw(st.integers(0, 2))
+        L, N = (24, 16) if fam == 2 else (27, 25)        # [1, 2] / [1]   and   {"k": 1, "j": 2} / {"k": 1}
+        ta, tb = draw(st.sampled_from([(0, 1), (1, 0), (0, 2), (2, 0)]))
+        ops = [("set", ta, n_, L, "attr"), ("reuse", tb, n_, 0), ("set", ta, n_, N, "attr"), ("mutate", 1), ("reuse", tb, n_, 1)] + list(ops)
     return {"fam": fam, "watchers": ws, "ops": [list(o) for o in ops]}
 
 
@@ -263,6 +274,7 @@ def execute(case):
     world = World(specs)
     model = Model(specs, world.script_vals)
     rewatched = False
+    assigned = []          # the objects assigned by the `set` operations so far (for `reuse` / `mutate`)
     dup_related = set()
     for w, sp in enumerate(specs):
         if sp.get("dup_of") is not None:
@@ -276,8 +288,25 @@ def execute(case):
         model.trace = []
         model.queued_scripted_ran = False
         try:
-            if kind == "set":
-                t, n, v, route = op[1], NAMES[op[2]], pool_value(op[3]), op[4]
+            if kind == "mutate":
+                if assigned:
+                    o_ = assigned[op[1] % len(assigned)]
+                    if isinstance(o_, list):
+                        o_.append(2)
+                        res.label("in_place_mutation_of_assigned_object")
+                    elif isinstance(o_, dict):
+                        o_["j"] = 2
+                        res.label("in_place_mutation_of_assigned_object")
+                continue
+            if kind in ("set", "reuse"):
+                if kind == "reuse":
+                    if not assigned:
+                        continue
+                    t, n, v, route = op[1], NAMES[op[2]], assigned[op[3] % len(assigned)], "attr"
+                    res.label("same_object_assigned_again")
+                else:
+                    t, n, v, route = op[1], NAMES[op[2]], pool_value(op[3]), op[4]
+                    assigned.append(v)
                 if route == "update":
                     world.trace.append(("assign", t, n, v, None))
                     world.targets[t].param.update(**{n: v})
